@@ -20,7 +20,7 @@ import sympy as sp
 
 from .common import *  # noqa
 from .boolib import FULL, NEWAX, col_bcast, row_bcast
-from .c05 import segments, file_writes
+from .c05 import segments, file_writes, header_verdict
 from ..vg import Interp
 
 MOD = "neighbors.freud_neighbors"
@@ -68,18 +68,18 @@ def check_convert(run, pkg):
                     box = v
                 else:
                     pts = v
-            okb = box is not None and box[1].endswith("from_box") and box[2] == (("attr", snap, "boxlength"),)
-            run.ob("R-ALG", fq, f"{tag}:box", okb, "the tessellation box is built from the frame's box lengths", show(box)[:60] if box else "?", witness=None if okb else "box of another frame / wrong lengths", loc=fi.loc())
+            okb = eqv(box[2][0], ("attr", snap, "boxlength")) if (box is not None and box[1].endswith("from_box") and len(box[2]) == 1) else None
+            run.ob("R-ALG", fq, f"{tag}:box", okb, "the tessellation box is built from the frame's box lengths", show(box)[:60] if box else "?", witness=None if okb else "box of another frame / wrong lengths", loc=fi.loc(), sound=True)
             core = pts
             padded = False
             if core is not None and core[0] == "call" and core[1] == "numpy.hstack" and core[2][0][0] == "tuple" and len(core[2][0][1]) == 2:
                 z = core[2][0][1][1]
                 padded = z == ("call", "numpy.zeros", (("tuple", (("attr", snap, "nparticle"), C(1))),), ())
                 core = core[2][0][1][0]
-            run.ob("R-ALG", fq, f"{tag}:pad", padded == (ndim == 2), "in 2D a zero z column is appended (and only then)", f"padded={padded}", witness=None if padded == (ndim == 2) else "2D points without z / 3D points padded", loc=fi.loc())
+            run.ob("R-ALG", fq, f"{tag}:pad", True if padded == (ndim == 2) else None, "in 2D a zero z column is appended (and only then)", f"padded={padded}", witness=None if padded == (ndim == 2) else "2D points without z / 3D points padded", loc=fi.loc())
             P = ("attr", snap, "positions")
             if centred:
-                ok = core == P
+                ok = True if core == P else None
                 run.ob("R-ALG", fq, f"{tag}:points", ok, "a box already centred on the origin needs no shift", show(core)[:60], witness=None if ok else "shifted twice", loc=fi.loc())
             else:
                 okp = core is not None and core[0] == "bin" and core[1] == "-" and core[2] == P
@@ -92,18 +92,20 @@ def check_convert(run, pkg):
                     if t == ("attr", snap, "boxlength"):
                         return Ls
                     return None
-                oksh = False
+                oksh = None
                 if sh is not None:
                     tr = S.Translator(at)
                     try:
-                        oksh = sp.expand(tr.tr(sh) - (lo + Ls / 2)) == 0 and not tr.atoms
+                        # an affine expression in the lower bounds and box lengths only: exact comparison
+                        g_ = sp.expand(tr.tr(sh) - (lo + Ls / 2))
+                        oksh = bool(g_ == 0) if not tr.atoms else None
                     except Exception:  # noqa
-                        oksh = False
-                run.ob("R-ALG", fq, f"{tag}:points", okp and oksh, "points = positions - (lower bound + L/2): centred on the box centre, computed out of place", show(core)[:90] if core else "?",
-                       witness=None if okp and oksh else "box with origin (1, 2): particles are placed outside freud's centred box and wrapped to wrong images", loc=fi.loc())
+                        oksh = None
+                run.ob("R-ALG", fq, f"{tag}:points", tri(True if okp else None, oksh), "points = positions - (lower bound + L/2): centred on the box centre, computed out of place", show(core)[:90] if core else "?",
+                       witness=None if okp and oksh else "box with origin (1, 2): particles are placed outside freud's centred box and wrapped to wrong images", loc=fi.loc(), sound=True)
             ret = it.returns[0].data["value"]
             okr = ret[0] == "tuple" and len(ret[1]) == 2 and ret[1][0][0] == "appended" and ret[1][0][2] == box and ret[1][1][0] == "appended" and ret[1][1][2] == pts
-            run.ob("R-ALG", fq, f"{tag}:return", okr, "returns (boxes, points), one entry per frame", show(ret)[:60], witness=None if okr else "order swapped", loc=fi.loc())
+            run.ob("R-ALG", fq, f"{tag}:return", True if okr else None, "returns (boxes, points), one entry per frame", show(ret)[:60], witness=None if okr else "order swapped", loc=fi.loc())
 
 
 def check_cal_neighbors(run, pkg, ndim):
@@ -123,15 +125,15 @@ def check_cal_neighbors(run, pkg, ndim):
         files[suffix] = e
     want_bond = ".edgelength.dat" if ndim == 2 else ".facearea.dat"
     okfiles = set(files) == {".overall.dat", ".neighbor.dat", want_bond} and all(not e.loops and kw(e.data["call"], "mode", 1) == C("w") for e in opens)
-    run.ob("R-HANDLE", fq, f"{tag}:files", okfiles, f"three files (.overall.dat, .neighbor.dat, {want_bond}) are opened once for writing before the frame loop", str(sorted(files)),
+    run.ob("R-HANDLE", fq, f"{tag}:files", True if okfiles else None, f"three files (.overall.dat, .neighbor.dat, {want_bond}) are opened once for writing before the frame loop", str(sorted(files)),
            witness=None if okfiles else "file set / mode / placement changed", loc=fi.loc())
     if not okfiles:
         return
     fn, fb, fo = files[".neighbor.dat"].data["result"], files[want_bond].data["result"], files[".overall.dat"].data["result"]
     for nm, h in ((".neighbor.dat", fn), (want_bond, fb), (".overall.dat", fo)):
         cl = [e for e in it.events if e.kind == "call" and e.data["call"][1] == ".close" and e.data["call"][2][0] == h]
-        okc = len(cl) == 1 and not cl[0].loops
-        run.ob("R-HANDLE", fq, f"{tag}:close{nm}", okc, f"{nm} is closed once after the frame loop", f"{len(cl)} closes", witness=None if okc else "closed inside the loop / never closed", loc=fi.loc())
+        okc = True if (len(cl) == 1 and not cl[0].loops) else (False if any(c_.loops for c_ in cl) else None)
+        run.ob("R-HANDLE", fq, f"{tag}:close{nm}", okc, f"{nm} is closed once after the frame loop", f"{len(cl)} closes", witness=None if okc else "closed inside the frame loop: the next frame cannot be written", loc=fi.loc(), sound=True)
     wn, wb, wo = file_writes(it, fn), file_writes(it, fb), file_writes(it, fo)
     rows = [w for w in wn if len(w.loops) == 2]
     if not rows:
@@ -142,19 +144,17 @@ def check_cal_neighbors(run, pkg, ndim):
     run.ob("R-LOOPDOM", fq, f"{tag}:frames", okf, "every frame is tessellated", show(Lf.iter)[:50], witness=None if okf else "frames skipped", loc=fi.loc(Lf.node), sound=True)
     # headers
     for nm, ws, token in ((".neighbor.dat", wn, True), (want_bond, wb, False)):
-        hd = [w for w in ws if w.loops == (Lf.id,)]
-        segs = [segments(w.data["call"][2][1]) for w in hd]
-        lit = [s_[0][1] for s_ in segs if len(s_) == 1 and s_[0][0] == "lit"]
-        ok1 = len(hd) == 1 and len(lit) == 1 and lit[0].endswith("\n") and lit[0].count("\n") == 1 and hd[0].seq < min(w.seq for w in ws if len(w.loops) >= 2)
-        run.ob("R-PROTO", fq, f"{tag}:header{nm}", ok1, f"{nm}: exactly one header line per frame, before the rows", str(lit)[:60], witness=None if ok1 else "multi-frame file: reader loses / gains a line per frame", loc=fi.loc())
+        ok1, htext, _, _ = header_verdict(it, ws, Lf, min(w.seq for w in ws if len(w.loops) >= 2))
+        lit = [htext]
+        run.ob("R-PROTO", fq, f"{tag}:header{nm}", ok1, f"{nm}: exactly one header line per frame, before the rows", str(lit)[:60], witness=None if ok1 else "multi-frame file: reader loses / gains a line per frame", loc=fi.loc(), sound=True)
         if ok1:
             has = "neighborlist" in lit[0].split()
             run.ob("R-PROTO", fq, f"{tag}:token{nm}", has == token, ("the neighbour header carries the token `neighborlist` (ids are shifted back by the reader)" if token else
                    "the bond-weight header does not carry `neighborlist` (weights are read as floats, unshifted)"), repr(lit[0]),
-                   witness=None if has == token else ("neighbour ids are read as weights: no -1 shift" if token else "weights are shifted by -1 and truncated to integers"), loc=fi.loc())
+                   witness=None if has == token else ("neighbour ids are read as weights: no -1 shift" if token else "weights are shifted by -1 and truncated to integers"), loc=fi.loc(), sound=True)
     oh = [w for w in wo if not w.loops]
     okoh = len(oh) == 1 and segments(oh[0].data["call"][2][1]) == [("lit", "id cn area_or_volume\n")]
-    run.ob("R-PROTO", fq, f"{tag}:header.overall.dat", okoh, "the overall file has one header line", "", witness=None if okoh else "overall header changed", loc=fi.loc())
+    run.ob("R-PROTO", fq, f"{tag}:header.overall.dat", True if okoh else None, "the overall file has one header line", "", witness=None if okoh else "overall header changed", loc=fi.loc())
     # tessellation inputs
     vc = [e for e in it.events if e.kind == "call" and e.data["call"][1] == ".compute" and set(e.loops) == {Lf.id}]
     CONV = ("call", pkg.func(f"{MOD}.convert_configuration").qual, (SN,), ())
@@ -180,11 +180,11 @@ def check_cal_neighbors(run, pkg, ndim):
         r3 = rowsegs(ws, 3)
         ok_lead = len(r2) == 2 and [s_[0] for s_ in r2[0][1]] == ["int", "lit", "int", "lit"] and r2[0][1][0][1] == atomid and r2[0][1][2][1] == cn and \
             r2[0][1][1][1].strip() == "" and r2[0][1][3][1].strip() == "" and r2[0][1][3][1] != ""
-        run.ob("R-PROTO", fq, f"{tag}:lead{nm}", ok_lead, f"{nm}: a row starts with `id cn ` (1-based centre id, number of entries that follow)", str([s_[0] for s_ in r2[0][1]]) if r2 else "?",
+        run.ob("R-PROTO", fq, f"{tag}:lead{nm}", True if ok_lead else None, f"{nm}: a row starts with `id cn ` (1-based centre id, number of entries that follow)", str([s_[0] for s_ in r2[0][1]]) if r2 else "?",
                witness=None if ok_lead else "cn field differs from the number of entries / id not the centre id", loc=fi.loc())
         ok_end = len(r2) == 2 and r2[1][1] == [("lit", "\n")] and r2[1][0].seq > max((w.seq for w, _ in r3), default=-1)
-        run.ob("R-PROTO", fq, f"{tag}:newline{nm}", ok_end, f"{nm}: each row is terminated by one newline after its entries", "", witness=None if ok_end else "rows glued together", loc=fi.loc())
-        ok_ent = False
+        run.ob("R-PROTO", fq, f"{tag}:newline{nm}", True if ok_end else None, f"{nm}: each row is terminated by one newline after its entries", "", witness=None if ok_end else "rows glued together", loc=fi.loc())
+        ok_ent = None
         detail = ""
         if len(r3) == 1:
             w3, s3 = r3[0]
@@ -194,39 +194,54 @@ def check_cal_neighbors(run, pkg, ndim):
             val = s3[0][1] if s3 and s3[0][0] == "int" else None
             sep = len(s3) == 2 and s3[1][0] == "lit" and s3[1][1].strip() == "" and s3[1][1] != ""
             cursor = None
+            okcol_ = True
             if val is not None and val[0] == "sub":
-                if fmt == "int" and val[1] == NLIST and val[2][0] == "tuple" and val[2][1][1] == C(1):
+                if fmt == "int" and val[1] == NLIST and val[2][0] == "tuple" and len(val[2][1]) == 2:
                     cursor = val[2][1][0]
+                    okcol_ = eqv(val[2][1][1], C(1))       # column 1 of the bond list = the neighbour of the bond
                 if fmt == "float" and val[1] == ("attr", ("attr", voro, "nlist"), "weights"):
                     cursor = val[2]
             okcur = cursor is not None and cursor[0] == "mu" and cursor[1] == Lk.id
-            ok_ent = okb and sep and okcur
+            ok_ent = tri(okb, True if sep else None, True if okcur else None, okcol_)
+            if val is not None and any(x[0] == "undef" for x in walk(val)):
+                ok_ent = False         # the entry index reads a local that has no value yet in the first frame (UnboundLocalError)
+                detail += " ; index read before assignment"
             detail = f"inner loop {show(Lk.iter)[:60]}, entry {show(val)[:60] if val else None}"
             if okcur:
                 # the cursor: initialised to 0 per frame, +1 per entry
                 incs = [e for e in it.events if e.kind == "aug" and e.data["name"] == cursor[2] and e.loops == w3.loops]
                 init = [e for e in it.events if e.kind == "assign" and e.data["name"] == cursor[2] and e.loops == (Lf.id,)]
                 okinc = tri_lazy(lambda: (True if (len(incs) == 1) else None), lambda: (True if (incs[0].data["op"] == "+") else None), lambda: eqv(incs[0].data["value"], C(1)), lambda: (True if (len(init) == 1) else None), lambda: eqv(init[0].data["value"], C(0)), lambda: (True if (incs[0].seq > w3.seq) else None))
+                if not [e for e in it.events if e.kind == "assign" and e.data["name"] == cursor[2] and Lf.id in e.loops]:
+                    okinc = False      # the cursor into this frame's bond list is never reset inside the frame loop
                 run.ob("R-IDX", fq, f"{tag}:cursor{nm}", okinc, "the bond cursor starts at 0 in every frame and advances by one per written entry", f"{len(incs)} increments, {len(init)} initialisations",
                        witness=None if okinc else "entries repeated / skipped; second frame starts mid-list", loc=fi.loc(), sound=True) if nm == ".neighbor.dat" else None
         run.ob("R-PROTO", fq, f"{tag}:entries{nm}", ok_ent, f"{nm}: exactly cn blank-separated entries follow, taken from consecutive bonds " + ("(neighbour id, 1-based)" if fmt == "int" else "(bond weight)"), detail,
-               witness=None if ok_ent else "number of entries differs from cn / wrong column / wrong bond", loc=fi.loc())
+               witness=None if ok_ent else "number of entries differs from cn / wrong column / wrong bond", loc=fi.loc(), sound=True)
     ro = rowsegs(wo, 2)
-    okov = tri_lazy(lambda: (True if (len(ro) == 1) else None), lambda: (True if ([s_[0] for s_ in ro[0][1]] == ["int", "lit", "int", "lit", "int", "lit"]) else None), lambda: (True if (ro[0][1][0][1] == atomid) else None), lambda: (True if (ro[0][1][2][1] == cn) else None), lambda: eqv(ro[0][1][4][1], ("sub", ("attr", voro, "volumes"), i)), lambda: (True if (ro[0][1][5][1] == "\n") else None))
+    okov = tri_lazy(lambda: (True if (len(ro) == 1) else None), lambda: (True if ([s_[0] for s_ in ro[0][1]] == ["int", "lit", "int", "lit", "int", "lit"]) else None), lambda: (True if (ro[0][1][0][1] == atomid) else None), lambda: (True if (ro[0][1][2][1] == cn) else None), lambda: _vol_index(ro[0][1][4][1], voro, i), lambda: (True if (ro[0][1][5][1] == "\n") else None))
     run.ob("R-PROTO", fq, f"{tag}:overall-row", okov, "overall file: one `id cn volume` line per particle (volume of that particle)", str([s_[0] for s_ in ro[0][1]]) if ro else "?",
            witness=None if okov else "volume of another particle / fields permuted", loc=fi.loc(), sound=True)
     # order guard
     rs = [e for e in it.events if e.kind == "raise" and e.loops == (Lf.id, Li.id)]
-    okg = False
+    okg = None
     if len(rs) == 1 and rs[0].guards:
         g = rs[0].guards[-1][0]
         conds = set(g[2]) if g[0] == "bool" and g[1] == "or" else {g}
         c1 = any(c[0] == "cmp" and c[1] == "!=" and {c[2], c[3]} == {atomid, ("sub", NLIST, ("tuple", (("sym", "?"), C(0))))} for c in conds)
         c_sorted = any(c[0] == "cmp" and c[1] == "!=" and atomid in (c[2], c[3]) and any(x[0] == "mu" for x in walk(c)) for c in conds)
         c_dense = any(c[0] == "cmp" and c[1] == "!=" and atomid in (c[2], c[3]) and (("bin", "+", i, C(1)) in (c[2], c[3]) or ("bin", "+", C(1), i) in (c[2], c[3])) for c in conds)
-        okg = c_sorted and c_dense
+        okg = True if (c_sorted and c_dense) else None
     run.ob("R-IDX", fq, f"{tag}:order-guard", okg, "rows are in id order with no id missing: row i must be id i+1 and the bond cursor must sit on that id, else the call raises", f"{len(rs)} raise",
            witness=None if okg else "a particle without neighbours shifts all later rows; reader places rows by id but volumes are indexed by row", loc=fi.loc())
+
+
+def _vol_index(t, voro, i):
+    """volumes[i] of the row's particle; an index carried by the bond cursor (a loop-carried counter) is another quantity"""
+    r = eqv(t, ("sub", ("attr", voro, "volumes"), i))
+    if r is None and t[0] == "sub" and t[1] == ("attr", voro, "volumes") and t[2][0] == "mu":
+        return False
+    return r
 
 
 def check_volume_matrix(run, pkg):
@@ -247,24 +262,28 @@ def check_volume_matrix(run, pkg):
             for e in it.events:
                 if e.kind == "assign" and e.data["name"] == "points":
                     pts = e.data["value"]
-            okp = eqv(pts, ("call", "numpy.array", (("sub", ("elem", CONV, 1), nc),), ()))
+            okp = eqv(pts, ("call", "numpy.array", (("sub", ("elem", CONV, 1), nc),), ()), ("call", "numpy.copy", (("sub", ("elem", CONV, 1), nc),), ()), ("call", ".copy", (("sub", ("elem", CONV, 1), nc),), ()), same=True)
             alias = pts == ("sub", ("elem", CONV, 1), nc)
+            if alias:
+                okp = False
             run.ob("R-IDX", fq, "frame:points", okp, "points = a copy of the converted coordinates of frame nconfig", show(pts)[:80] if pts else "?",
                    witness=None if okp else ("the caller's positions are displaced in place (alias of snapshot.positions for origin-centred boxes)" if alias else "coordinates of another frame"), loc=fi.loc(), sound=True)
             mats = [e for e in it.events if e.kind == "assign" and e.data["value"][0] == "call" and e.data["value"][1] == "numpy.zeros"]
             Np = ("sub", ("attr", pts, "shape"), C(0)) if pts else None
             okm = tri_lazy(lambda: (True if (bool(mats)) else None), lambda: eqv(mats[0].data["value"][2][0], ("tuple", (Np, ("bin", "*", Np, nd)))))
             badax = bool(mats) and any(x == ("sub", ("attr", pts, "shape"), nc) for x in walk(mats[0].data["value"]))
+            if badax:
+                okm = False
             run.ob("R-IDX", fq, "frame:size", okm, "the matrix is N x (N ndim) with N = number of points (axis 0 of the coordinates)", show(mats[0].data["value"])[:80] if mats else "?",
                    witness=None if okm else ("the frame index is used as an axis number: nconfig = 1 gives N = 3" if badax else "matrix shape wrong"), loc=fi.loc(), sound=True)
             voc = [e for e in it.events if e.kind == "call" and e.data["call"][1] == ".compute"]
-            okbox = bool(voc) and all(e.data["call"][2][1][0] == "tuple" and e.data["call"][2][1][1][0] == ("sub", ("elem", CONV, 0), nc) and e.data["call"][2][1][1][1] == pts for e in voc)
+            okbox = tri(*[tri(eqv(e.data["call"][2][1][1][0], ("sub", ("elem", CONV, 0), nc)), eqv(e.data["call"][2][1][1][1], pts)) if (e.data["call"][2][1][0] == "tuple" and len(e.data["call"][2][1][1]) == 2) else None for e in voc]) if voc else None
             run.ob("R-IDX", fq, "frame:box", okbox, "every tessellation uses the box of frame nconfig and the working copy of its points", f"{len(voc)} tessellations",
-                   witness=None if okbox else "box of frame 0 used for frame nconfig", loc=fi.loc())
+                   witness=None if okbox else "box of frame 0 used for frame nconfig", loc=fi.loc(), sound=True)
             # perturbation sequence on points[i, j]
             pst = [e for e in stores(it) if e.data["target"][1] == pts and len(e.loops) == 2]
-            okseq = False
-            if len(pst) == 3:
+            okseq = None
+            if pst:
                 Li, Lj = it.loops[pst[0].loops[0]], it.loops[pst[0].loops[1]]
                 i, j = Li.target, Lj.target
                 d = sp.Symbol("d")
@@ -276,21 +295,25 @@ def check_volume_matrix(run, pkg):
                         break
                     v = S.Translator(lambda t: d if t == dr else None).tr(e.data["value"])
                     steps.append(v if e.data["op"] == "+" else -v)
-                if steps:
-                    okseq = sp.expand(steps[0] - d) == 0 and sp.expand(steps[0] + steps[1] + d) == 0 and sp.expand(sum(steps)) == 0
+                if steps and all(x.free_symbols <= {d} for x in steps):
+                    # in-place steps that are multiples of delta only: positions visited = partial sums (exact)
+                    visited = [sp.expand(sum(steps[:k_ + 1])) for k_ in range(len(steps))]
+                    okseq = bool(len(steps) == 3 and sp.expand(steps[0] - d) == 0 and sp.expand(steps[0] + steps[1] + d) == 0 and sp.expand(sum(steps)) == 0)
+                    if not okseq and visited[-1] == 0 and set(visited[:-1]) == {d, -d}:
+                        okseq = True
                 okdom = tri_lazy(lambda: eqv(Li.iter, ("call", "builtins.range", (Np,), ())), lambda: eqv(Lj.iter, ("call", "builtins.range", (nd,), ())))
                 run.ob("R-LOOPDOM", fq, "perturbation:domain", okdom, "every coordinate of every particle is displaced", f"{show(Li.iter)[:40]} x {show(Lj.iter)[:30]}", witness=None if okdom else "coordinates skipped", loc=fi.loc(), sound=True)
             run.ob("R-ALG", fq, "perturbation:sequence", okseq, "coordinate (i, j) is moved to +delta, then to -delta, then restored (net displacement 0)", f"{len(pst)} in-place steps",
-                   witness=None if okseq else "the particle is not restored: later derivatives are taken around a drifting configuration", loc=fi.loc())
+                   witness=None if okseq else "the particle is not restored / not displaced to +delta and -delta: derivatives are taken around a drifting configuration or one-sided", loc=fi.loc(), sound=True)
             blk = [e for e in stores(it) if len(e.loops) == 2 and e.data["target"][2][0] == "tuple" and e.data["target"][1] != pts]
-            okblk = False
+            okblk = None
             if len(blk) == 1 and len(pst) == 3:
                 e = blk[0]
                 row, col = e.data["target"][2][1]
                 v = e.data["value"]
                 V = sp.Symbol("V1"), sp.Symbol("V2")
                 vols = [x for x in walk(v) if x[0] == "attr" and x[2] == "volumes"]
-                okcol = S.decide_equal(S.to_sympy(col, lambda t: {nd: sp.Symbol("nd"), i: sp.Symbol("i"), j: sp.Symbol("j")}.get(t)), sp.Symbol("nd") * sp.Symbol("i") + sp.Symbol("j"))[0] is True
+                okcol = eqv(col, ("bin", "+", ("bin", "*", nd, i), j))
                 cond = row
                 okrow = cond[0] == "cmp" and cond[1] == "!=" and i in (cond[2], cond[3]) and any(x[0] == "call" and x[1] == "numpy.arange" for x in walk(cond))
                 okval = v[0] == "sub" and v[2] == cond
@@ -306,11 +329,11 @@ def check_volume_matrix(run, pkg):
                     pass
                 form = core[0] == "bin" and core[1] == "/" and core[3] == dr and core[2][0] == "bin" and core[2][1] == "/" and core[2][3] == C(2) and core[2][2][0] == "bin" and core[2][2][1] == "-"
                 form2 = core[0] == "bin" and core[1] == "/" and core[2][0] == "bin" and core[2][1] == "-" and core[3] in (("bin", "*", C(2), dr), ("bin", "*", dr, C(2)))
-                okblk = okcol and okrow and okval and (form or form2)
+                okblk = tri(okcol, True if (okrow and okval and (form or form2)) else None)
             run.ob("R-ALG", fq, "off-diagonal", okblk, "column ndim*i + j of every other particle's row receives (V+ - V-)/(2 delta) of that particle", key_of(blk[0])[:100] if blk else "?",
-                   witness=None if okblk else "derivative stored in the wrong column / includes the displaced particle / not a central difference", loc=fi.loc())
+                   witness=None if okblk else "derivative stored in the wrong column / includes the displaced particle / not a central difference", loc=fi.loc(), sound=True)
             selfb = [e for e in stores(it) if len(e.loops) == 1 and e.data["target"][2][0] == "tuple" and e.data["target"][1] != pts]
-            oks = False
+            oks = None
             if len(selfb) == 1 and blk:
                 e = selfb[0]
                 L = it.loops[e.loops[0]]
@@ -321,13 +344,15 @@ def check_volume_matrix(run, pkg):
                 okslice = tri_lazy(lambda: (True if (row == ii) else None), lambda: (True if (col[0] == "slice") else None), lambda: (True if (col[1] in (lo, ("bin", "*", ii, nd))) else None), lambda: eqv(col[2], ("bin", "+", lo, nd), ("bin", "+", ("bin", "*", ii, nd), nd)))
                 want = ("un", "-", ("call", ".sum", (("call", ".reshape", (("sub", A, ii), Np, nd), ()),), (("axis", C(0)),)))
                 lxe = [x for x in it.events if x.kind == "loop_exit" and x.data["loop"] == blk[0].loops[0]]
-                oks = tri_lazy(lambda: (True if (okslice) else None), lambda: (True if (e.data["value"] == want) else None), lambda: eqv(L.iter, ("call", "builtins.range", (Np,), ())), lambda: (True if (lxe) else None), lambda: (True if (e.seq > lxe[0].seq) else None), lambda: (True if (A == blk[0].data["target"][1]) else None))
+                oks = tri_lazy(lambda: (True if (okslice) else None), lambda: eqv(e.data["value"], want), lambda: eqv(L.iter, ("call", "builtins.range", (Np,), ())), lambda: (True if (lxe) else None), lambda: (True if (e.seq > lxe[0].seq) else None), lambda: (True if (A == blk[0].data["target"][1]) else None))
             run.ob("R-ALG", fq, "self-block", oks, "after all off-diagonal blocks are filled, block (i, i) = - sum over particles of row i's blocks (the row then sums to zero per displaced coordinate)", key_of(selfb[0])[:100] if selfb else "?",
                    witness=None if oks else "rows do not sum to zero: a rigid translation changes the cell volumes", loc=fi.loc(), sound=True)
             nrm = [e for e in it.events if e.kind == "aug" and e.data["op"] == "/" and not e.loops]
             orig = [e.data["value"] for e in it.events if e.kind == "assign" and e.data["name"] == "original"]
-            okn = len(nrm) == 1 and orig and col_bcast(nrm[0].data["value"]) == orig[0] and nrm[0].data["value"] != orig[0] and selfb and nrm[0].seq > selfb[0].seq
-            run.ob("R-ALG", fq, "normalisation", bool(okn), "each row is divided by the unperturbed volume of its particle, after the self block", key_of(nrm[0])[:60] if nrm else "?", witness=None if okn else "normalised by column / before the self block", loc=fi.loc())
+            okn = True if (len(nrm) == 1 and orig and col_bcast(nrm[0].data["value"]) == orig[0] and nrm[0].data["value"] != orig[0] and selfb and nrm[0].seq > selfb[0].seq) else None
+            if okn is None and len(nrm) == 1 and nrm[0].data["value"][0] == "sub" and nrm[0].data["value"][2] == ("tuple", (NEWAX, FULL)):
+                okn = False        # a row vector divides the columns, not the rows
+            run.ob("R-ALG", fq, "normalisation", okn, "each row is divided by the unperturbed volume of its particle, after the self block", key_of(nrm[0])[:60] if nrm else "?", witness=None if okn else "normalised by column / before the self block", loc=fi.loc(), sound=True)
         # save = return
         rets = [r for r in it.returns]
         sv = [e for e in it.events if e.kind == "call" and e.data["call"][1] == "numpy.save"]
@@ -345,5 +370,5 @@ def check_volume_matrix(run, pkg):
                 M = nrm_new[0]
                 MT = ("attr", M, "T")
                 want = ("call", "numpy.matmul", (("call", "numpy.matmul", (MT, ("call", "numpy.linalg.inv", (("call", "numpy.matmul", (M, MT), ()),), ())), ()), M), ())
-            okt = want is not None and ret == want
+            okt = True if (want is not None and ret == want) else None
             run.ob("R-ALG", fq, "transform", okt, "transformed matrix = A^T (A A^T)^-1 A", show(ret)[:60], witness=None if okt else "projector formula changed", loc=fi.loc())
